@@ -217,7 +217,11 @@ Fixpoint upd {A} (i : nat) (x : A) (l : list A) : list A :=
   | h :: t, S j => h :: upd j x t
   end.
 
-(* serve.go: the acknowledgement is put into the waiter's buffered channel *)
+(* serve.go:81-84,118-123,...,185-188: every hand-off is a NON-BLOCKING send into the waiter's channel of
+   capacity 1, "select { case ch <- ack: default: }". [ackready] is that one-slot buffer: filling a full
+   buffer drops the packet, an acknowledgement for an identifier nobody waits for (index out of range here)
+   is ignored, an acknowledgement for a call that has already returned lands in a channel nobody reads.
+   In no case does the reader wait for anybody. *)
 Definition deliver (i : nat) (s : sys) : sys :=
   match nth_error (calls s) i with
   | Some c => set_calls s (upd i (set_ack c true) (calls s))
@@ -247,7 +251,7 @@ Definition apply_effect (i : nat) (e : effect) (s : sys) : sys :=
   | ESpawn => match rd s with RNotStarted => set_rd s RServing | _ => s end
   | ECloseT => set_tclosed s true
   | ESetDisc => set_disc s true
-  | ESendAck => set_inbox s (inbox s ++ [PAck i])
+  | ESendAck => if eof s then s else set_inbox s (inbox s ++ [PAck i])   (* a peer that has closed answers nothing *)
   end.
 
 Inductive label := LReader | LCall (i : nat) (a : arm).
@@ -482,6 +486,34 @@ Definition f14_release (k : cell) : list (option outcome) :=
   let s := cell_start k in
   let s' := set_calls s (upd 1 (set_cx (nth 1 (calls s) dormant) CtxCanceled) (calls s)) in
   map (option_map (observe z)) (explore FUEL s').
+
+(* ---------- stray acknowledgements before the cause ---------- *)
+
+(* the cell of (c, p, z), or no blocked call at all (c = None), but before the cause strikes the peer sends
+   [k] acknowledgements for a request that has completed earlier (duplicates; also a late or repeated PINGRESP:
+   the finished Ping's channel is still installed) and [k] for identifiers nobody ever used, then an
+   ordinary packet; the reader consumes what it can *)
+Definition stray_start (c : option call) (p : point) (z : cause) (k : nat) : sys :=
+  let s := match c with Some c => stage_a c p | None => conn0 true [dormant] end in
+  let old := length (calls s) in
+  let s1 := set_calls s (calls s ++ [dormant]) in
+  let s2 := set_inbox s1 (inbox s1 ++ repeat (PAck old) k ++ repeat (PAck 99) k ++ [PData]) in
+  apply_cause p z (greedy FUEL s2).
+
+Definition stray_outcomes (c : option call) (p : point) (z : cause) (k : nat) : list (option outcome) :=
+  map (option_map (observe z)) (explore FUEL (stray_start c p z k)).
+
+Definition stray_ok (c : option call) (z : cause) (r : option outcome) : bool :=
+  match r, c with
+  | Some o, Some c => ok_outcome c z o
+  | Some o, None => is_ctx z || (o_done o && o_rexit o)   (* nobody blocked: Done() closed, reader gone *)
+  | None, _ => false
+  end.
+
+Definition stray_cell_ok (k : nat) (x : cell) : bool :=
+  let '(c, p, z) := x in
+  forallb (stray_ok (Some c) z) (stray_outcomes (Some c) p z k) &&
+  forallb (stray_ok None z) (stray_outcomes None p z k).
 
 (* ===================================================================================== *)
 (** * 5b. Several calls blocked at once on one connection *)
